@@ -18,6 +18,14 @@ CLAIMED = {
     ),
 }
 
+CLAIMED["C20"] = dict(
+    level="exploration",
+    text="Seeded simulation of histories of builds, complete runs, abandoned runs, failed builds, host allocations and compactions into one shared data object (both shipped implementations); every tenant is compared with its solo build (instruction stream modulo offsets, jump ranges, constants) and solo run (result, host-call history, step count, status), and earlier tenants are re-read after every event. Sampling, not proof.",
+    design="DESIGN.md §5 C20",
+    note="Trusted: scripted host stub, structural reader, solo twin = same real code in a fresh object. Casts (text/symbol conversions expose jump indices and the shared symbol-name table) are kept out of the tenant corpus. Store-full under a configured capacity is a fault firing, not a verdict.",
+    technique=TECH + ": seeded build/run/abandon/failed-build history into one store, solo-twin differential oracle",
+)
+
 NOT_APPLICABLE = {
     "C01": "pure function of (source text, input value, data implementation): no schedule, fault, configuration or second party in the statement — input generation, not simulation",
     "C02": "parse is a pure function of the token sequence; deciding it means enumerating operator pairs/triples, not simulating anything",
@@ -40,7 +48,6 @@ PENDING = {
     "C10": "claimed in DESIGN.md; check not built yet in this commit (simulation target: host-call histories)",
     "C15": "claimed in DESIGN.md; check not built yet in this commit (simulation target: store histories under growth knobs and store-full faults)",
     "C17": "claimed in DESIGN.md; check not built yet in this commit (simulation target: host-call histories)",
-    "C20": "claimed in DESIGN.md; check not built yet in this commit (simulation target: histories of builds/runs into one shared data object)",
 }
 
 def main():
